@@ -4,6 +4,8 @@ import CryoCat.Lemmas.C02_Crlf
 import CryoCat.Lemmas.C02_ComRead
 import CryoCat.Lemmas.C02_Hard
 import CryoCat.Lemmas.C02_Export
+import CryoCat.Lemmas.C02_Value
+import CryoCat.Lemmas.C02_Reject
 /-! C02 — property theorems: STAR files read back to the same blocks, columns, rows and values.
 Only theorems and non-vacuity examples; the proofs are in `Lemmas/C02*.lean`. The model
 (`Model/C02.lean`) is the one the driver executes; the layout grammar of the statement is
@@ -43,6 +45,15 @@ theorem writer_literals_documented :
     Gen.C02.specLine = [['\n'], ['\n', '\n']] ∧ Gen.C02.loopLine = ['l', 'o', 'o', 'p', '_', '\n'] ∧
     Gen.C02.stopgapExtra = ['\n'] ∧ Gen.C02.blockEnd = ['\n'] ∧ Gen.C02.labelStart = 1 := by decide
 
+/-- **The table is written as it is**: the only re-binding of the table inside the block loop of
+`Starfile.write` is the cell formatting (`frame.map(format_value)`, with the pandas-2 fall-back
+`applymap`) — no sorting, no de-duplication, no re-indexing — and the rows are taken in the order of
+the table, row labels left out (`frame.itertuples(index=False)`). The harness writes tables with
+permuted, repeated and string row labels, so an edit here also shows as a failing input. -/
+theorem writer_rows_documented :
+    Gen.C02.frameStatements = ["frame=frame.map(format_value)ifhasattr(frame,'map')elseframe.applymap(format_value)"] ∧
+    Gen.C02.rowsLoop = "frame.itertuples(index=False)" := ⟨by decide, rfl⟩
+
 /-- the `comments` argument of `Starfile.write` (`\n# <c>` per comment, then `\n`, before the specifier
 line), the value of a COMMENT token (stripped), `parse_newline_or_comments`, the order of the comment
 lists `Starfile.read` concatenates per block, its `data_id` branch, `get_specifier_id` and
@@ -72,22 +83,34 @@ theorem signature_defaults_documented :
     Gen.C02.writeDefaults = "ifv2isNone:;v2=['data']*len(v0);ifv3isNone:;v3=(None,)*len(v0);iflen(v0)!=len(v2)orlen(v0)!=len(v3)orlen(v2)!=len(v3):;raiseValueError();forv6,v7inenumerate(v0):;v0[v6]=v7.round(v5)" :=
   ⟨by decide, by decide, by decide, by decide, rfl, rfl, rfl⟩
 
+/-- **The character loop of `Token.tokenize` is the documented one** (whole-body dump: locals numbered
+by binding occurrence, the message of the `IOError` dropped): split at `\n`; per line the pending
+sequence starts at the first character that is neither `str.isspace()` nor `#`; at a blank or `#` the
+sequence `line[first:index]` — the WHOLE slice, nothing cut off — becomes a PROPERTY / LOOP / LITERAL
+token; `#` turns the rest of the line, stripped, into a COMMENT; a sequence pending at the end of the
+line is classified the same way from `line[first:]`; every line ends with a NEWLINE token; the list
+is returned reversed (the parser pops from its end). What `go` / `tokenizeLine` / `lineToks` /
+`tokenize` model. -/
+theorem tokenizer_body_documented :
+    Gen.C02.body_tokenize = "v1=list();v2=v0.split('\\n');forv3,v4inenumerate(v2):;v5=None;forv6,v7inenumerate(v4):;ifnotv7.isspace()andv7!='#':;ifv5isNone:;v5=v6;continue;elifv5isnotNone:;ifv4[v5]=='_':;v1.append(Token(TokenType.PROPERTY,v4[v5:v6],(v3,v5)));elifv4[v5:v6]=='loop_':;v1.append(Token(TokenType.LOOP,v4[v5:v6],(v3,v5)));else:;v1.append(Token(TokenType.LITERAL,v4[v5:v6],(v3,v5)));v5=None;ifv7=='#':;v1.append(Token(TokenType.COMMENT,v4[v6+1:].strip(),(v3,v6)));break;elifnotv7.isspace():;raiseIOError();ifv5isnotNone:;ifv4[v5]=='_':;v1.append(Token(TokenType.PROPERTY,v4[v5:],(v3,v5)));elifv4[v5:]=='loop_':;v1.append(Token(TokenType.LOOP,v4[v5:],(v3,v5)));else:;v1.append(Token(TokenType.LITERAL,v4[v5:],(v3,v5)));v1.append(Token(TokenType.NEWLINE,None,(v3,0)));returnv1[::-1]" := rfl
+
 /-- **The parser half is the documented one**: whole-body dumps (statement kinds and expressions,
 locals renamed, messages dropped) of `parse_specifier`, `parse_columns`, `parse_column`, `parse_rows`,
 `check`, `consume`, `check_then_consume`, `lookahead`, the loop of `Starfile.read` and
 `_to_numeric_if_possible` — what `parseSpecifier`, `parseColumns`, `parseLabels`, `rowsGo`,
 `lookaheadLit`, `blocksGoC` and `colNumeric` model. An added, removed or changed statement breaks
-this theorem; a renamed local or a reworded error message does not. -/
+this theorem; a renamed local, an added type annotation or a reworded error message does not; the
+spellings `len(x) == 0` / `not x` and `len(x) > 0` / `x` are folded (the dump shows `not x` / `x`). -/
 theorem parser_documented :
     Gen.C02.body_parse_specifier = "v1=Token.parse_newline_or_comments(v0);v2=Token.consume(v0,TokenType.LITERAL);return(v1,v2.value)" ∧
     Gen.C02.body_parse_columns = "v1=Token.parse_newline_or_comments(v0);v2=[];Token.consume(v0,TokenType.LOOP);Token.consume(v0,TokenType.NEWLINE);whileToken.check(v0,TokenType.PROPERTY):;v3=Token.parse_column(v0);v2.append(v3);return(v1,v2)" ∧
     Gen.C02.body_parse_column = "v1=Token.consume(v0,TokenType.PROPERTY);Token.check_then_consume(v0,TokenType.COMMENT);Token.consume(v0,TokenType.NEWLINE);returnv1.value[1:]" ∧
     Gen.C02.body_parse_rows = "v2=Token.parse_newline_or_comments(v0);v3=False;v4=[];whilenotv3:;v5=[];forv6inrange(len(v1)):;v7=Token.check_then_consume(v0,TokenType.LITERAL);ifv7isNone:;v3=True;break;else:;v5.append(v7.value);else:;Token.consume(v0,TokenType.NEWLINE);v4.append(v5);return(v2,pd.DataFrame(v4,columns=v1))" ∧
-    Gen.C02.body_check = "iflen(v0)==0:;raiseIOError();ifv0[-1].token_type==v1:;returnTrue;returnFalse" ∧
-    Gen.C02.body_consume = "iflen(v0)==0:;raiseIOError();ifv0[-1].token_type==v1:;returnv0.pop();else:;raiseIOError()" ∧
-    Gen.C02.body_check_then_consume = "iflen(v0)>0andv0[-1].token_type==v1:;returnToken.consume(v0,v1);returnNone" ∧
+    Gen.C02.body_check = "ifnotv0:;raiseIOError();ifv0[-1].token_type==v1:;returnTrue;returnFalse" ∧
+    Gen.C02.body_consume = "ifnotv0:;raiseIOError();ifv0[-1].token_type==v1:;returnv0.pop();else:;raiseIOError()" ∧
+    Gen.C02.body_check_then_consume = "ifv0andv0[-1].token_type==v1:;returnToken.consume(v0,v1);returnNone" ∧
     Gen.C02.body_lookahead = "v2=set(v2);forv3inrange(len(v0)-1,-1,-1):;ifv0[v3].token_type==v1:;returnTrue;elifv0[v3].token_typeinv2:;continue;else:;break;returnFalse" ∧
-    Gen.C02.body_read = "withopen(v0,mode='r')asv2:;v3=v2.read();v4=Token.tokenize(v3);v5=[];v6=[];v7=[];whileToken.lookahead(v4,TokenType.LITERAL,[TokenType.NEWLINE,TokenType.COMMENT]):;v8,v9=Token.parse_specifier(v4);v10,v11=Token.parse_columns(v4);v12,v13=Token.parse_rows(v4,v11);v6.append(v8+v10+v12);v7.append(v9);v5.append(v13);Token.parse_newline_or_comments(v4);iflen(v4)>0:;raiseIOError();forv14,v15inenumerate(v5):;v5[v14]=v15.apply(Starfile._to_numeric_if_possible);ifv1isnotNone:;return(v5[v1],v7[v1],v6[v1]);else:;return(v5,v7,v6)" ∧
+    Gen.C02.body_read = "withopen(v0,mode='r')asv2:;v3=v2.read();v4=Token.tokenize(v3);v5=[];v6=[];v7=[];whileToken.lookahead(v4,TokenType.LITERAL,[TokenType.NEWLINE,TokenType.COMMENT]):;v8,v9=Token.parse_specifier(v4);v10,v11=Token.parse_columns(v4);v12,v13=Token.parse_rows(v4,v11);v6.append(v8+v10+v12);v7.append(v9);v5.append(v13);Token.parse_newline_or_comments(v4);ifv4:;raiseIOError();forv14,v15inenumerate(v5):;v5[v14]=v15.apply(Starfile._to_numeric_if_possible);ifv1isnotNone:;return(v5[v1],v7[v1],v6[v1]);else:;return(v5,v7,v6)" ∧
     Gen.C02.body_to_numeric_if_possible = "try:;returnpd.to_numeric(v0);except(ValueError,TypeError):;returnv0" :=
   ⟨rfl, rfl, rfl, rfl, rfl, rfl, rfl, rfl, rfl, rfl⟩
 
@@ -413,6 +436,39 @@ theorem remove_lines_roundtrip (numberColumns : Bool) (bs : List Block) (coms : 
   have := readStarC_printStarC numberColumns (coms.map some) (dropAt bs k idx) txt hw hc (dropAt_ok bs k idx h) he
   simpa [List.map_map, Function.comp_def, comRead] using this
 
+/-- **`removeLines` — the function the driver executes for `Starfile.remove_lines` — is `dropAt` on the blocks read, written back
+under the comments read**: every outcome. A text that does not parse fails like the reader; an absent `data_specifier` is the
+"not found" warning (nothing written); otherwise block `k` (block 0, or the first block of that name) loses the listed rows —
+`dropAt`, whose rows are characterised by `remove_lines_rows` — and the text written is `printStarC` of those blocks with the
+comment lists `read` returned (never the `ValueError`: the lists have equal lengths); a position beyond the last row is the
+`IndexError`. -/
+theorem remove_lines_is_dropAt (txt : List Char) (idx : List Nat) (spec : Option Word) (numberColumns : Bool) :
+    (∀ e, readStarC txt = .error e → removeLines txt idx spec numberColumns = .error (.sel (.parse e))) ∧
+    (∀ bcs, readStarC txt = .ok bcs → removeTarget bcs spec = none → removeLines txt idx spec numberColumns = .error .notFound) ∧
+    (∀ bcs k, readStarC txt = .ok bcs → removeTarget bcs spec = some k → ∀ hk : k < bcs.length,
+      ((∀ i ∈ idx, i < bcs[k].1.rows.length) →
+        removeLines txt idx spec numberColumns = .ok (printAllC numberColumns (comsOf bcs) (dropAt (blocksOf bcs) k idx)) ∧
+        printStarC numberColumns (comsOf bcs) (dropAt (blocksOf bcs) k idx) = some (printAllC numberColumns (comsOf bcs) (dropAt (blocksOf bcs) k idx))) ∧
+      (¬ (∀ i ∈ idx, i < bcs[k].1.rows.length) → removeLines txt idx spec numberColumns = .error .rowIndex)) :=
+  removeLines_cases txt idx spec numberColumns
+
+/-- **What `remove_lines` writes is read back as the tables without the listed rows**, stated about `removeLines` itself: if the
+input text reads as `bcs`, the target block is `k` and every listed position exists, then `removeLines` succeeds and its output is
+read back as `dropAt (blocks) k idx` with the comments of the input (stripped) — as long as the blocks and comments read are ones
+the writer's round trip is claimed for and no block but the last becomes empty. -/
+theorem remove_lines_reads_back (numberColumns : Bool) (txt : List Char) (bcs : List (Block × List Comment)) (spec : Option Word)
+    (k : Nat) (idx : List Nat) (hr : readStarC txt = .ok bcs) (ht : removeTarget bcs spec = some k) (hk : k < bcs.length)
+    (hi : ∀ i ∈ idx, i < bcs[k].1.rows.length) (hc : ComsOk (comsOf bcs)) (h : ∀ b ∈ blocksOf bcs, BlockOk b)
+    (he : EmptyOnlyLast (dropAt (blocksOf bcs) k idx)) :
+    ∃ out, removeLines txt idx spec numberColumns = .ok out ∧
+      readStarC out = .ok ((dropAt (blocksOf bcs) k idx).zip (bcs.map (fun p => p.2.map stripWs))) := by
+  obtain ⟨h1, h2⟩ := ((removeLines_cases txt idx spec numberColumns).2.2 bcs k hr ht hk).1 hi
+  refine ⟨_, h1, ?_⟩
+  have hcoms : comsOf bcs = (bcs.map (fun p => p.2)).map some := by simp [comsOf, List.map_map, Function.comp_def]
+  rw [hcoms] at h2 hc ⊢
+  have := remove_lines_roundtrip numberColumns (blocksOf bcs) (bcs.map (fun p => p.2)) k idx _ h2 hc h he
+  simpa [List.map_map, Function.comp_def] using this
+
 /-- a text ending on the last label line of an empty last block, no final newline (class C02-K3) -/
 abbrev k3Doc : Doc :=
   { blocks := [{ pre := [], name := "data_".toList, nameLine := ⟨[], [("data_".toList, [])], []⟩, mid := [],
@@ -431,14 +487,45 @@ abbrev k4Doc : Doc :=
                  rows := [⟨[], [("3".toList, [])], []⟩] }],
     trailing := [⟨[], [], []⟩] }
 
-/-- **The statement's layout class is wider than what the reader accepts** (open findings C02-K3 and
-C02-K4; the reason for the two extra constraints of `Doc.Ok`). `Doc.OkStatement` is the layout grammar
-exactly as worded ("blank and comment lines *may* … separate blocks", "with or without final newline",
-an empty loop only last); `read_any_layout` is proved for `Doc.Ok = OkStatement ∧ SepOk`. Without `SepOk`:
-(K3) a text ending on the last label line of an empty last block without final newline makes
-`Token.check` raise on the exhausted queue; (K4) a block that directly follows the rows of the previous
-one has its name consumed as a cell and the reader fails with left-over tokens. Both texts read fine
-once a line break / a blank line is added. -/
+/-- the reader rejects EVERY text of the statement's layout class that lacks a separating line between two blocks or the line
+end after the last label line of an empty last block (proved: `reader_rejects_outside_sepOk`) -/
+def ReaderRejectsOutsideSepOk : Prop :=
+  ∀ d : Doc, d.OkStatement → ¬ SepOk d.trailing d.blocks → ∃ e, readStar d.text = .error e
+
+/-- **Every unseparated text of the statement's layout class is rejected** (the full classes of the open findings C02-K3 and
+C02-K4, not only one witness each): if a document of `Doc.OkStatement` ends on the last label line of an empty last block
+(`Token.check` raises on the exhausted queue), or a block's name line directly follows the rows of the previous block (the name
+is consumed as a cell; the row loop then fails on a comment where the line end is due, or stops in front of `loop_` and the
+block loop fails with left-over tokens), `Starfile.read` raises — whatever the number of blocks, their sizes and the layout of
+everything else. -/
+theorem reader_rejects_outside_sepOk : ReaderRejectsOutsideSepOk := fun d h hns => readStar_reject d h hns
+
+/-- **Within the statement's layout class the reader accepts a text iff it is separated** — and then returns exactly its blocks:
+`Doc.Ok` is not merely a class the reader happens to accept, it is ALL of the statement's class it accepts. -/
+theorem reader_accepts_iff_separated (d : Doc) (h : d.OkStatement) :
+    (readStar d.text = .ok (d.blocks.map BlockLayout.block) ↔ SepOk d.trailing d.blocks) ∧
+    ((∃ bs, readStar d.text = .ok bs) ↔ SepOk d.trailing d.blocks) := by
+  have hok : SepOk d.trailing d.blocks → readStar d.text = .ok (d.blocks.map BlockLayout.block) :=
+    fun hs => readStar_doc d ⟨h.1, h.2.1, hs, h.2.2.2⟩
+  constructor
+  · refine ⟨fun hr => ?_, hok⟩
+    by_cases hs : SepOk d.trailing d.blocks
+    · exact hs
+    · obtain ⟨e, he⟩ := readStar_reject d h hs
+      rw [he] at hr; cases hr
+  · refine ⟨fun ⟨bs, hr⟩ => ?_, fun hs => ⟨_, hok hs⟩⟩
+    by_cases hs : SepOk d.trailing d.blocks
+    · exact hs
+    · obtain ⟨e, he⟩ := readStar_reject d h hs
+      rw [he] at hr; cases hr
+
+/-- **The statement's layout class is strictly wider than what the reader accepts** (open findings C02-K3 and C02-K4; the reason
+for the two extra constraints of `Doc.Ok`). (i) `Doc.Ok d ↔ Doc.OkStatement d ∧ SepOk …` — `Doc.OkStatement` is the layout grammar
+exactly as worded ("blank and comment lines *may* … separate blocks", "with or without final newline", an empty loop only last),
+`Doc.Ok` adds `SepOk`; by `read_any_layout` + `reader_accepts_iff_separated` the reader accepts exactly the `Doc.Ok` part.
+(ii) one document of `OkStatement` without `SepOk` of each kind, with its text, that the reader rejects and that reads fine once a
+line break / a blank line is added: (K3) a text ending on the last label line of an empty last block without final newline;
+(K4) a block that directly follows the rows of the previous one. -/
 theorem statement_layout_wider_than_reader :
     (∀ d : Doc, d.Ok ↔ d.OkStatement ∧ SepOk d.trailing d.blocks) ∧
     (k3Doc.OkStatement ∧ k3Doc.text = "data_\nloop_\n_a".toList ∧ readStar k3Doc.text = .error (.expected .prop true) ∧
@@ -482,6 +569,85 @@ theorem empty_block_not_last_breaks :
                               { name := "data_b".toList, cols := ["y".toList], rows := [["1".toList]] }])
       ≠ .ok [{ name := "data_a".toList, cols := ["x".toList], rows := [] },
              { name := "data_b".toList, cols := ["y".toList], rows := [["1".toList]] }] := by decide +kernel
+
+/-- **Witness for the proposed finding C02-K5**: by the statement a column holding the tokens `9223372036854775808` (= 2^63) and
+`-1` is a numeric — indeed an integer — column (both are number tokens of the grammar, with exact values 2^63 and −1);
+`pandas.to_numeric` refuses the mix of the unsigned 64-bit range with a negative value and `Starfile.read` returns the column as
+text (shown by the harness; `_to_numeric_if_possible` swallows the exception). -/
+theorem uint64_with_negative_is_numeric :
+    blockKinds isNumTok { name := "data_".toList, cols := ["id".toList], rows := [["9223372036854775808".toList], ["-1".toList]] } = [true] ∧
+    blockInts { name := "data_".toList, cols := ["id".toList], rows := [["9223372036854775808".toList], ["-1".toList]] } = [true] ∧
+    decValue "9223372036854775808".toList = some ((2 ^ 63 : Nat) : Rat) ∧ decValue "-1".toList = some (-1) := by
+  exact ⟨by decide, by decide, by decide +kernel, by decide +kernel⟩
+
+/-! ### the value clause: "numeric values equal after rounding to 6 decimals", read side, exact arithmetic -/
+
+/-- **The exact value of a decimal token.** For every literal of the grammar — sign, integer digits, optional fraction,
+optional exponent `e`/`E` with its own sign — `decValue` returns `± (integer and fractional digits read as one number) ·
+10^(exponent − number of fractional digits)`; and `decValue` is defined exactly on the tokens the recogniser `isDecTok`
+(= the grammar, `numeric_grammar`) accepts: `inf`, `nan` and text have no value. -/
+theorem decimal_token_value :
+    (∀ d : Dec, d.Ok → decValue d.text = some d.value) ∧
+    (∀ w : Word, (decValue w).isSome = isDecTok w) ∧
+    (∀ w : Word, isDecTok w = true → ∃ d : Dec, d.Ok ∧ w = d.text ∧ decValue w = some d.value) :=
+  ⟨decValue_dec, decValue_isSome, decValue_of_isDecTok⟩
+
+/-- **The cells the writer prints denote the numbers they were printed from, whichever form `repr` chooses**: `str(n)` of an
+integer has the exact value `n`; the cell laid out from ANY non-empty digit string and ANY decimal-point position (fixed form with
+leading or trailing zeros, `.0`, exponent form beyond 16 / below −4 digits with sign and two-digit exponent) has the exact value
+`± digits · 10^(decpt − number of digits)`. (The digit string itself — numpy's `round` and the shortest round-trip digits — is
+not modelled: see `written_value_meets_clause` for what is asked of it.) -/
+theorem written_cell_value :
+    (∀ n : Int, decValue (cellText (.int n)) = some (n : Rat)) ∧
+    (∀ (neg : Bool) (ds : Word) (decpt : Int), ds ≠ [] → AllDigits ds →
+      decValue (cellText (.flt (.fin neg ds decpt))) = some (digitsValue neg ds decpt)) :=
+  ⟨decValue_intStr', decValue_floatRepr'⟩
+
+/-- **The checker decides the clause.** `round6Ok` — run by the driver on every float cell of every file the real
+`Starfile.write` produces, with `p = Gen.C02.floatPrecision` read from the source — is true exactly when the token is a decimal
+literal whose exact value `d` has at most `p` fractional digits and `|d − v| ≤ ½·10⁻ᵖ + ulps·ulp`. -/
+theorem round6Ok_iff (p ulps : Nat) (v ulp : Rat) (tok : Word) :
+    round6Ok p ulps v ulp tok = true ↔ Round6Spec p ulps v ulp tok := round6Ok_iff' p ulps v ulp tok
+
+/-- **Value clause of the round trip.** A float cell `v` printed from the digits `(neg, ds, decpt)` meets the clause "equal after
+rounding to `p` decimals" — as checked on the FILE — iff the digits do: the printed token's exact value is the digits' value
+(`written_cell_value`), so any "round to `p` decimals, then print" writer whose digit string is within half a unit of the `p`-th
+decimal (plus the floating-point allowance) of `v` and has at most `p` fractional digits yields a token that reads back — by exact
+decimal parsing — to a value within that distance of `v`. -/
+theorem written_value_meets_clause (p ulps : Nat) (v ulp : Rat) (neg : Bool) (ds : Word) (decpt : Int) (hne : ds ≠ []) (hd : AllDigits ds) :
+    (Round6Spec p ulps v ulp (cellText (.flt (.fin neg ds decpt))) ↔
+      ((digitsValue neg ds decpt * ((10 ^ p : Nat) : Rat)).den = 1 ∧ absQ (digitsValue neg ds decpt - v) ≤ halfUnit p + (ulps : Rat) * ulp)) ∧
+    (Round6Spec p ulps v ulp (cellText (.flt (.fin neg ds decpt))) →
+      ∃ d, decValue (cellText (.flt (.fin neg ds decpt))) = some d ∧ absQ (d - v) ≤ halfUnit p + (ulps : Rat) * ulp) := by
+  have hv := decValue_floatRepr' neg ds decpt hne hd
+  constructor
+  · unfold Round6Spec
+    constructor
+    · rintro ⟨d, h1, h2, h3⟩
+      have : d = digitsValue neg ds decpt := by
+        have h1' : decValue (floatRepr neg ds decpt) = some d := h1
+        rw [hv] at h1'; exact (Option.some.inj h1').symm
+      subst this; exact ⟨h2, h3⟩
+    · rintro ⟨h2, h3⟩
+      exact ⟨_, hv, h2, h3⟩
+  · rintro ⟨d, h1, _, h3⟩
+    exact ⟨d, h1, h3⟩
+
+/-- the number of decimals and the allowance the driver's check runs with are the documented ones: `float_precision = 6` (read
+from the regenerated `Gen.C02.floatPrecision`: an edit of the default changes what the checker asks) and 3 units in the last place -/
+theorem round6Cell_documented (bits : Nat) (tok : Word) :
+    round6Cell bits tok = (match bitsValue bits with
+      | some (v, ulp) => round6Ok 6 3 v ulp tok
+      | none => false) := rfl
+
+/-- **Witness for the open finding C02-K2**: the cell printed for an infinity has no decimal value, so it meets the value clause
+for NO finite written value, whatever the number of decimals and the allowance — a finite float written as `inf` / `-inf`
+(numpy's `round` overflows in `v·10⁶` from `|v| ≥ 1.7976931348623157e302` on) violates the statement. -/
+theorem inf_cell_never_meets_clause (neg : Bool) :
+    decValue (cellText (.flt (.inf neg))) = none ∧
+    ∀ (p ulps : Nat) (v ulp : Rat), round6Ok p ulps v ulp (cellText (.flt (.inf neg))) = false := by
+  have h : decValue (cellText (.flt (.inf neg))) = none := by cases neg <;> decide
+  exact ⟨h, fun p ulps v ulp => by unfold round6Ok; rw [h]⟩
 
 /-! ### non-vacuity: concrete inputs meeting the hypotheses -/
 
@@ -573,5 +739,22 @@ example : removeLines (printStar true exBlocks) [] (some "data_stopgap_motl".toL
 example : removeLines (printStar true exBlocks) [] (some "data_x".toList) true = .error .notFound ∧
           removeLines (printStar true exBlocks) [1] none true = .error .rowIndex := by decide +kernel
 example : (withDefaultNames exBlocks).map Block.name = ["data".toList, "data".toList] := by decide
+
+/-! non-vacuity of the value theorems -/
+example : ["1.5", "-0.000123", "1e-05", "3.3e+2", "12", ".5", "7.", "-12.e2", "+2", "1E3"].map (fun s => decValue s.toList)
+    = [some (3 / 2), some (-123 / 1000000), some (1 / 100000), some 330, some 12, some (1 / 2), some 7, some (-1200), some 2, some 1000] := by decide +kernel
+example : ["inf", "nan", "1_0", "", "-", "1e", "x"].map (fun s => decValue s.toList) = List.replicate 7 none := by decide
+/-- 1.5 (bit pattern 0x3FF8000000000000) printed as `1.5` meets the clause; printed with a seventh decimal or half a unit off it does not -/
+example : bitsValue 0x3FF8000000000000 = some (3 / 2, 1 / 4503599627370496) := by decide +kernel
+example : round6Cell 0x3FF8000000000000 "1.5".toList = true ∧ round6Cell 0x3FF8000000000000 "1.5000001".toList = false ∧
+          round6Cell 0x3FF8000000000000 "1.500001".toList = false ∧ round6Cell 0x3FF8000000000000 "inf".toList = false := by decide +kernel
+/-- the double nearest 0.1234565 (0x3FBF9AD85DFA871A, 3·10⁻¹⁸ below the tie) may be printed as 0.123456 or 0.123457 — both are
+within half a unit of the sixth decimal + 3 ulp — but not as 0.123458 -/
+example : round6Cell 0x3FBF9AD85DFA871A "0.123456".toList = true ∧ round6Cell 0x3FBF9AD85DFA871A "0.123457".toList = true ∧
+          round6Cell 0x3FBF9AD85DFA871A "0.123458".toList = false := by decide +kernel
+example : digitsValue true "15".toList 1 = -3 / 2 ∧ digitsValue false "1".toList (-4) = 1 / 100000 := by decide +kernel
+/-- the two witness documents are in the statement's class and not separated: `reader_rejects_outside_sepOk` applies to them -/
+example : (k3Doc.OkStatement ∧ ¬ SepOk k3Doc.trailing k3Doc.blocks) ∧ (k4Doc.OkStatement ∧ ¬ SepOk k4Doc.trailing k4Doc.blocks) := by decide
+example : removeTarget [(exBlocks[0], []), (exBlocks[1], [])] (some "data_stopgap_motl".toList) = some 1 ∧ removeTarget [(exBlocks[0], [])] none = some 0 := by decide
 
 end CryoCat.C02
